@@ -35,11 +35,13 @@ func vpInbound(policy MessageSignaturePolicy, author bool) {
 	srcSelf := vpBool("received_from_self")
 	fromGarbage, extractable := vpBool("from_garbage"), vpBool("from_extractable")
 	keyGarbage, keyIsAuthor, sigValid := vpBool("key_garbage"), vpBool("key_is_author"), vpBool("sig_valid")
+	sigByOther := vpBool("sig_verifies_under_the_other_key") // a forger signing with a key of its own
 	vpCryptoSet("from_garbage", b2i(fromGarbage))
 	vpCryptoSet("from_extractable", b2i(extractable))
 	vpCryptoSet("key_garbage", b2i(keyGarbage))
 	vpCryptoSet("key_is_author", b2i(keyIsAuthor))
 	vpCryptoSet("sig_valid", b2i(sigValid))
+	vpCryptoSet("sig_by_other", b2i(sigByOther))
 	topic := vpT0
 	m := &pb.Message{Data: []byte("d"), Topic: &topic}
 	if hasFrom {
